@@ -299,28 +299,108 @@ def build_pool(rng, room):
     return pool
 
 
-def filler_ops(w, n_fill, pool=None, focus=None):
-    """A long history of plain constructions (valid, sibling, one-edit-invalid): what a bounded cache,
-    an eviction path or an "after N calls" counter needs. They carry no reference. With `focus` (a
-    version) 85 % of them are of that version's class, so that a per-class table really fills up."""
+FILLER_KINDS = ("new", "observe", "text", "rh")
+
+
+def _junk_candidate(w):
+    """Something a text scanner takes for a vector and the constructors reject (paths, URL parts)."""
+    r = w.below(3)
+    if r == 0:
+        words = ["security", "updates", "classification", "errata", "advisories", "severity", "ratings", "cve", "kb"]
+        s_ = "/" + "/".join(w.choice(words) for _ in range(w.between(3, 6))) + "/"
+    elif r == 1:
+        s_ = "".join(w.choice("ABCDEFGHIJKLMNOPQRSTUVWXYZabcdefghijklmnopqrstuvwxyz:/") for _ in range(w.between(26, 40)))
+    else:
+        version = w.choice(["2", "3.0", "3.1", "4.0"])
+        s_ = vectors.edit_vector(w, vectors.valid_vector(w, version))[1]
+    while len(s_) < 26:
+        s_ += "/x"
+    return s_
+
+
+def filler_ops(w, n_fill, pool=None, focus=None, kind="new"):
+    """A long history of plain calls: what a bounded cache, an eviction path or an "after N calls"
+    counter needs. They carry no reference. kind "new": constructions (valid, sibling, one-edit-invalid);
+    with `focus` (a version) 85 % of them are of that version's class, so that a per-class table really
+    fills up. kind "observe": construction + every accessor (fills accessor-level tables). kind "text":
+    parse_cvss_from_text over texts with several distinct candidates each (valid, near-valid, junk), so
+    that `n_fill` counts *candidates*. kind "rh": from_rh_vector calls (right score, wrong score)."""
     fill = []
     if focus is None and w.chance(0.6):
         focus = w.choice(list(spec.VERSIONS))
+    if kind == "text":
+        left = n_fill
+        while left > 0:
+            k = min(left, w.between(2, 9))
+            left -= k
+            parts = []
+            for _ in range(k):
+                r = w.below(10)
+                if r < 7:
+                    version = focus if (focus in ("2", "3.0", "3.1") and w.chance(0.7)) else w.choice(["2", "2", "3.0", "3.1"])
+                    v = vectors.valid_vector(w, version, corners=0.02)
+                elif r < 8 and pool:
+                    v = w.choice(pool)[2]
+                else:
+                    v = _junk_candidate(w)
+                parts.append(w.choice(["", "CVE-2016-%04d " % w.below(10000), "see ", "- "]) + v)
+            fill.append({"op": "text", "s": w.choice(["\n", " ", "; ", "\n\n"]).join(parts) + "\n", "noref": True})
+        return fill
+    if kind == "rh":
+        for _ in range(n_fill):
+            version = focus if (focus is not None and w.chance(0.85)) else w.choice(list(spec.VERSIONS))
+            r = w.below(10)
+            if r < 2 and pool:
+                cls, how, s_ = w.choice(pool)
+                fill.append({"op": "rh" if how == "rh" else "new", "cls": cls, "s": s_, "noref": True})
+            else:
+                # any score spelling in front: mostly refused with a score mismatch (the failure path), right
+                # for the few vectors that score exactly that
+                score = w.choice(["0.0", "5.0", "7.5", "9.8", "10.0", "4.3", "%d.%d" % (w.below(10), w.below(10))])
+                fill.append({"op": "rh", "cls": spec.CLASS_OF[version], "s": score + "/" + vectors.valid_vector(w, version, corners=0.05), "noref": True})
+        return fill
+    ctor = "observe" if kind == "observe" else "new"
+
+    def one(cls, s_):
+        if ctor == "observe":
+            return {"op": "observe", "cls": cls, "how": "ctor", "s": s_, "noref": True}
+        return {"op": "new", "cls": cls, "s": s_, "noref": True}
+
     for _ in range(n_fill):
         r = w.below(10)
         if focus is not None and w.chance(0.85):
-            fill.append({"op": "new", "cls": spec.CLASS_OF[focus], "s": vectors.valid_vector(w, focus, corners=0.02), "noref": True})
+            fill.append(one(spec.CLASS_OF[focus], vectors.valid_vector(w, focus, corners=0.02)))
             continue
         if r < 6 or (r < 8 and not pool):
             version = w.choice(list(spec.VERSIONS))
-            fill.append({"op": "new", "cls": spec.CLASS_OF[version], "s": vectors.valid_vector(w, version, corners=0.05), "noref": True})
+            fill.append(one(spec.CLASS_OF[version], vectors.valid_vector(w, version, corners=0.05)))
         elif r < 8:
             cls, how, s_ = w.choice(pool)
-            fill.append({"op": "new" if how == "ctor" else "rh", "cls": cls, "s": s_, "noref": True})
+            if how == "ctor":
+                fill.append(one(cls, s_))
+            else:
+                fill.append({"op": "rh", "cls": cls, "s": s_, "noref": True})
         else:
             version = w.choice(list(spec.VERSIONS))
-            fill.append({"op": "new", "cls": spec.CLASS_OF[version], "s": vectors.edit_vector(w, vectors.valid_vector(w, version))[1], "noref": True})
+            fill.append(one(spec.CLASS_OF[version], vectors.edit_vector(w, vectors.valid_vector(w, version))[1]))
     return fill
+
+
+def prologue_of(w, actors, kind):
+    """Copies of calls the caller threads will make later, placed BEFORE the long history: what a table
+    that forgets (or half-forgets) an early entry needs -- first use, many other entries, same call again."""
+    want = {"text": ("text",), "rh": ("observe",), "new": ("observe", "cmp"), "observe": ("observe", "cmp")}[kind]
+    cands = [op for a in actors for op in a["ops"] if op["op"] in want and not op.get("noref")]
+    if kind == "rh":
+        cands = [op for op in cands if op.get("how") == "rh"] or cands
+    w.shuffle(cands)
+    out = []
+    for op in cands[:w.between(1, 4)]:
+        o = dict(op)
+        o.pop("as", None)
+        o["noref"] = True
+        out.append(o)
+    return out
 
 
 def draw_run(rng, room):
@@ -349,21 +429,42 @@ def draw_run(rng, room):
             env = {"prec": env_rng.choice(PRECS), "rounding": env_rng.choice(ROUNDINGS)}
         actors.append({"env": env, "ops": gen_ops(w, n_ops_each[i], pool, room, sw["p_invalid"])})
     sw["long_history"] = 0
+    sw["history_kind"] = None
+    sw["prologue"] = 0
     if n_threads == 1 and sw_rng.chance(0.04):
-        # a long history of plain constructions (valid, invalid, siblings) before the probes: what a
-        # bounded cache, an eviction path or an "after N calls" counter would need; the filler ops
-        # carry no reference (only the probes that follow are compared with the clean room)
+        # a long history of plain calls (valid, invalid, siblings) before the probes: what a bounded
+        # cache, an eviction path or an "after N calls" counter would need; the filler ops carry no
+        # reference (only the probes that follow are compared with the clean room)
         n_fill = sw_rng.choice([150, 300, 700, 1500])
+        kind = sw_rng.weighted([("new", 4), ("observe", 2), ("text", 3), ("rh", 2)])
+        if kind == "observe":
+            n_fill = min(n_fill, 700)
         sw["long_history"] = n_fill
-        fill = filler_ops(w, n_fill, pool)
-        actors[0]["ops"] = fill + actors[0]["ops"]
+        sw["history_kind"] = kind
+        if kind == "text" and not any(op["op"] == "text" for op in actors[0]["ops"]):
+            texts_pool = [s for _, how, s in pool if how == "ctor"]
+            actors[0]["ops"].append({"op": "text", "s": vectors.text_with_vectors(w, texts_pool)})
+        fill = filler_ops(w, n_fill, pool, kind=kind)
+        pro = prologue_of(w, actors, kind) if sw_rng.chance(0.6) else []
+        sw["prologue"] = len(pro)
+        actors[0]["ops"] = pro + fill + actors[0]["ops"]
     sw["warmup"] = 0
     warm = []
-    if sw_rng.chance(0.07):
+    if sw_rng.chance(0.08):
         # the same kind of history, but BEFORE the caller threads start (a cache that is already full,
         # a table that already holds entries when the concurrent calls arrive)
         sw["warmup"] = sw_rng.choice([150, 300, 600])
-        warm = filler_ops(rng.fork("warmup"), sw["warmup"], pool)
+        kind = sw_rng.weighted([("new", 4), ("observe", 2), ("text", 3), ("rh", 2)])
+        if kind == "observe":
+            sw["warmup"] = min(sw["warmup"], 300)
+        sw["history_kind"] = kind
+        wr = rng.fork("warmup")
+        if kind == "text" and not any(op["op"] == "text" for a in actors for op in a["ops"]):
+            texts_pool = [s for _, how, s in pool if how == "ctor"]
+            actors[wr.below(len(actors))]["ops"].append({"op": "text", "s": vectors.text_with_vectors(wr, texts_pool)})
+        pro = prologue_of(wr, actors, kind) if sw_rng.chance(0.6) else []
+        sw["prologue"] = len(pro)
+        warm = pro + filler_ops(wr, sw["warmup"], pool, kind=kind)
     return sw, actors, warm
 
 
@@ -821,6 +922,12 @@ class StateEngine(object):
                     "fault.long_history_before_probe": 1 if any(op.get("noref") for a in actors for op in a["ops"]) else 0,
                     "fault.warm_up_history_before_threads": 1 if warm else 0,
                     "cleanroom_refs": len(refs), "probe.thread_blocked_on_library_lock": rep.get("lock_waits", 0)}
+        hist = [op for a in actors for op in a["ops"] if op.get("noref")] + list(warm)
+        if hist:
+            kinds = {"new": "constructions", "observe": "constructions_with_accessors", "text": "text_extractions", "rh": "red_hat_strings"}
+            counters["fault.history_of_%s" % kinds.get((trace.get("swarm") or {}).get("history_kind") or "new", "constructions")] = 1
+            if (trace.get("swarm") or {}).get("prologue"):
+                counters["fault.probe_calls_also_made_before_the_history"] = 1
         for f, c in rep["same_func"].items():
             counters["probe.preempted_while_other_thread_in_same_function:" + f] = c
         for k2, c in rep["probes"].items():
